@@ -671,7 +671,7 @@ func (s *sim) wakeAll(except *task) {
 
 func (s *sim) doOp(t *task, i int, op *OpPlan, outcomes [][]uint64, texts [][]string) {
 	var sh *subject
-	if op.Shared >= 0 && op.Shared < len(s.shared) {
+	if op.Shared >= 0 && op.Shared < len(s.shared) && op.Key.Variant != vEditSQL {
 		sh = s.shared[op.Shared].sub
 		s.faults["shared-read"]++
 	}
@@ -687,6 +687,9 @@ func (s *sim) doOp(t *task, i int, op *OpPlan, outcomes [][]uint64, texts [][]st
 		texts[t.id][i] = res.text
 	}
 	s.checkOutcome(t, i, op.Key, res.hash, "O1")
+	for _, msg := range drainInvariants() {
+		s.fails = append(s.fails, failure{Oracle: "O7", Task: t.id, Op: i, Key: op.Key.String(), Detail: msg})
+	}
 	if op.Twice {
 		s.faults["repeat"]++
 		t.inOp = true
